@@ -7,3 +7,5 @@ export GOFLAGS=-mod=vendor GOPROXY=off GOSUMDB=off GOTOOLCHAIN=local CGO_ENABLED
 mkdir -p ../bin
 go build -o ../bin/riecheck ./cmd/riecheck
 echo "built $(cd .. && pwd)/bin/riecheck"
+# source rewriters behind the generated negatives of the self-test (selftest/ALL/neg-gen-*.gen): thorough tier only
+for t in renlocals revfuncs flipifs outline; do go build -o ../bin/$t ./cmd/$t; done
